@@ -16,7 +16,7 @@ pub fn c09_check<L: KeyboardLayout>(name: &str, l: &L) {
     };
     let out_map = l.map_keycode(k, &m, HandleControl::MapLettersToUnicode);
     let out_ign = l.map_keycode(k, &m, HandleControl::Ignore);
-    println!("C09 {} key={:?} types={:?} mods={:?} map={:?} ignore={:?}", name, k, plain, m, out_map, out_ign);
+    crate::show!("C09 {} key={:?} types={:?} mods={:?} map={:?} ignore={:?}", name, k, plain, m, out_map, out_ign);
     if !r_ctrl(&m) {
         assert!(out_map == out_ign, "C09: Ctrl mode changes the output although Ctrl is not held");
     }
@@ -76,7 +76,7 @@ macro_rules! c09_e2e {
                 let _ = d.process_keyevent(KeyEvent::new(ctrl, KeyState::Down));
                 d.set_ctrl_handling(HandleControl::MapLettersToUnicode);
                 let out = d.process_keyevent(KeyEvent::new(k, KeyState::Down));
-                println!("C09 e2e {} key={:?} types={:?} ctrl={:?} out={:?}", stringify!($ty), k, plain, ctrl, out);
+                crate::show!("C09 e2e {} key={:?} types={:?} ctrl={:?} out={:?}", stringify!($ty), k, plain, ctrl, out);
                 if let DecodedKey::Unicode(c) = plain {
                     if is_ascii_lower(c) {
                         assert!(out == char::from_u32(c as u32 - 0x60).map(DecodedKey::Unicode), "C09: Ctrl+letter through the event decoder");
